@@ -33,6 +33,7 @@ EXPRS = [
     "@1|truncate(3, true, @2, 0)", "[@1, @2]|map('string')|join(',')", "[@1, @2]|list", "(@1, @2)", "{'k': @1}", "[@1]|map('upper')|list", "@1|forceescape ~ @2",
     "@1|striptags", "@1|wordcount", "@1|title ~ @2", "[@2, @1]|sort|join", "[@1, @2]|unique|join", "@1|list|join(@2)", "-@1", "@1 ** 2", "(-@1) ** 2", "@1 // 2 ~ @2", "not @1", "@1 and @2", "@1 or @2",
     "{'items': @1}.items is number", "{'keys': @1, 'a': @2}.keys is callable", "{'a': @1}.get('a') ~ @2", "{'items': @1}['items']", "{'values': @1}.values is mapping", "(@1, @2).count is callable",
+    "@1 ** kk", "-@1 ** kk", "(@1 * -1) ** kk", "@1 * -1 ~ @2", "(@1 - @1) * -1.0", "@1 // -1 ** kk", "kk - -@1", "-@1 ** 2 ** kk",
     "@1|xmlattr", "{'c': @1}|xmlattr", "@1|tojson", "[@1, @2]|tojson", "@1|urlize", "@1|float ~ @2", "@1|int + 1", "@1|abs", "[@1, @2]|sum", "[@1, @2]|max", "range(@1 if @1 is number else 1)|list",
 ]
 WRAPS = ["{{ E }}", "{% set v = E %}{{ v }}", "{% if E %}y{{ E }}{% else %}n{% endif %}", "{% for g in [E] %}{{ g }}{% endfor %}", "{{ x ~ (E) }}", "{{ (E)|string|length }}",
@@ -41,7 +42,7 @@ REGIONS = [("", ""), ("{% autoescape true %}", "{% endautoescape %}"), ("{% auto
            ("{% autoescape on %}", "{% endautoescape %}"), ("{% autoescape off %}", "{% endautoescape %}"), ("{% autoescape none %}", "{% endautoescape %}")]
 # slot values: (source literal, run-time value)
 VALS = [("0", 0), ("1", 1), ("7", 7), ("-2", -2), ("'<b>'", "<b>"), ("'a&b'", "a&b"), ("''", ""), ("'x y'", "x y"), ("('<i>'|safe)", Markup("<i>")), ("('&amp;'|safe)", Markup("&amp;")),
-        ("true", True), ("none", None), ("2.5", 2.5), ("'\"q\\''", "\"q'")]
+        ("true", True), ("none", None), ("2.5", 2.5), ("'\"q\\''", "\"q'"), ("0.0", 0.0), ("-0.0", -0.0)]
 V2 = [0, 4, 8, 11]   # second slot: a representative subset of VALS
 P = {}
 ENVS = {}
@@ -106,7 +107,7 @@ def fold_native(ei, wi, a, b, r, ae):
     src_l = pre + WRAPS[wi].replace("E", lifted) + post
     for flags in ((True, False), (False, True)):
         # the region keywords on/off/none are context variables: runtime-decided (volatile) autoescape
-        ctx = dict(x="<x>", s1=VALS[a][1], s2=VALS[b][1], on=flags[0], off=flags[1], none=None)
+        ctx = dict(x="<x>", s1=VALS[a][1], s2=VALS[b][1], on=flags[0], off=flags[1], none=None, kk=0 if flags[0] else 2)
         asyncm = bool(P.get("asyncm"))
         key = lambda opt: (ae, opt, "async") if asyncm else (ae, opt)
         r_opt = _render(ENVS[key(True)], src_i, ctx)
